@@ -142,8 +142,18 @@ func c16Check[K any](c *fw.Case, name string, m skiplist.MapI[K, int], cmp skipl
 		i := sort.Search(len(sorted), func(i int) bool { return cmp.Compare(sorted[i], p) >= 0 })
 		return i, i < len(sorted) && cmp.Compare(sorted[i], p) == 0
 	}
+	var exhausted skiplist.IteratorI[K, int] // the iterator drained before the current one: its caller may still poll it
 	drain := func(it skiplist.IteratorI[K, int]) ([]K, bool) {
 		var out []K
+		if exhausted != nil {
+			// a drained iterator stays drained, whatever was created on the map since — and polling it takes nothing
+			// away from the iterator that is about to be read
+			if _, _, err := exhausted.Next(); !errors.Is(err, skiplist.Done) {
+				c.Violate("skiplist/done-not-sticky/after-another-iterator-was-created", "%s: an iterator that had returned Done returned %v after a new iterator was created on the map", name, err)
+			}
+			c.Obs("drained_iterators_polled_after_a_new_one_was_created", 1)
+		}
+		defer func() { exhausted = it }()
 		for {
 			k, v, err := it.Next()
 			if err != nil {
@@ -491,6 +501,13 @@ func c16PQ(c *fw.Case) {
 	if err != nil {
 		c.Violate("pq/init-error", "NewPriorityQueue: %v", err)
 		return
+	}
+	// the slice handed to the constructor belongs to the caller: half of the cases reuse it right away
+	if c.R.Intn(2) == 0 {
+		for i := range iters {
+			iters[i] = &c16Iter{ctx: -7}
+		}
+		c.Obs("pq_caller_slice_overwritten_after_construction", 1)
 	}
 	seen := map[int]bool{}
 	next := make([]int, k) // per input: next expected position
